@@ -29,22 +29,60 @@ class Valuation:
     n_state: int = 4
     n_control: int = 2
     n_calib: int = 5
+    ekf: bool = True          # False: the plain cpp.Model generation (cpp.compile), no filter, no runtime
 
     @property
     def tag(self):
-        return f"ctl{int(self.control)}_cal{int(self.calibration)}_flt{int(self.filtering)}_s" + "x".join(str(n) for _, n in self.sensors)
+        return ("" if self.ekf else "model_") + f"ctl{int(self.control)}_cal{int(self.calibration)}_flt{int(self.filtering)}_s" + "x".join(str(n) for _, n in self.sensors)
+
+
+class FakeSym:
+    """stand-in for a sympy expression in the construction code: printable, substitutable, differentiable"""
+
+    def __init__(self, text="0.0"):
+        self.text = text
+
+    def subs(self, *a, **k):
+        return self
+
+    def __str__(self):
+        return self.text
+
+    def __lt__(self, o):
+        return str(self) < str(o)
+
+
+class FakeBlock:
+    """stand-in for cpp.BasicBlock: compile() yields one `target = 0.0;` per statement (what the real block prints, with the expression stubbed)"""
+
+    def __init__(self, statements=(), indent=0, config=None, decl=False):
+        self.statements = [(str(t), "0.0") for t, _ in list(statements)]
+        self.decl = decl
+
+    def compile(self):
+        return [Node("MemberDeclaration", type_="", name=t, value=v) for t, v in self.statements]
+
+
+class FakeCov:
+    def __init__(self, n):
+        self.shape = (n, n)
+        self.data = {(i, j): 0.0 for i in range(n) for j in range(n)}
 
 
 class FakeReading:
-    def __init__(self, name, size):
+    def __init__(self, name, size, gen=None):
         self.typename = name.title()
         self.size = size
         self.identifier = f"SensorId::{name.upper()}"
-        self.sensor_model_mapping = {f"{name}_r{i}": None for i in range(size)}
+        self.sensor_model_mapping = {f"{name}_r{i}": FakeSym() for i in range(size)}
         body = [Node("Return", value="{}")]
         self.SensorModel_model_body = body
         self.SensorModel_covariance_body = body
         self.SensorModel_jacobian_body = body
+        if gen is not None and gen._w is not None:
+            # the generator's own body builders (local declaration, statements, return), with the sympy-printed expressions stubbed
+            self.SensorModel_jacobian_body = gen._real("ExtendedKalmanFilter", "_translate_sensor_jacobian", self.typename, self.sensor_model_mapping)
+            self.SensorModel_covariance_body = gen._real("ExtendedKalmanFilter", "_translate_sensor_covariance", self.typename, FakeCov(size))
         self.members = ""
         self.initializer_list = ""
         self.Options_members = ""
@@ -62,9 +100,11 @@ class FakeConfig:
 
 
 class FakeGenerator:
-    def __init__(self, v: Valuation):
+    def __init__(self, v: Valuation, w: "Witness" = None):
         self.v = v
-        self.enable_EKF = True
+        self._w = w
+        self.config = None
+        self.enable_EKF = v.ekf
         self.namespace = "gen"
         self.header_include = "witness.h"
         self.config = FakeConfig(v)
@@ -81,12 +121,67 @@ class FakeGenerator:
         for n, sz in sorted(v.sensors):
             byrole = {"name": n, "model": {f"{n}_r{i}": None for i in range(sz)}, "noise": {}}
             self.sensorlist.append(rec(*[byrole[r] for r in roles]))
-        self._readings = [FakeReading(n, sz) for n, sz in sorted(v.sensors)]
+        st = self.arglist_state
+        self._process_model = FakeBlock([(f"double {n}", None) for n in st])
+        self._model = self._process_model
+        self._process_jacobian = FakeBlock([(f"jacobian({i}, {j})", None) for i in range(len(st)) for j in range(len(st))])
+        self._control_jacobian = FakeBlock([(f"jacobian({i}, {j})", None) for i in range(len(st)) for j in range(self.control_size)])
+        self._control_covariance = FakeBlock([(f"covariance({i}, {j})", None) for i in range(self.control_size) for j in range(self.control_size)])
+        self._return = "{}"
+        if w is not None:
+            self._return = self._real("ExtendedKalmanFilter" if v.ekf else "Model", "_translate_return")
+        self._readings = [FakeReading(n, sz, self) for n, sz in sorted(v.sensors)] if v.ekf else []
+
+    def _real(self, cls, name, *args):
+        """evaluate the generator class's own method (from the current cpp.py) on this stand-in"""
+        w = self._w
+        ev = minieval.MiniEval({"ast_fragments": w.frag, "cpp": w.cpp}, aliases={"fragments": "ast_fragments"},
+                               natives={"BasicBlock": FakeBlock, "Symbol": FakeSym, "diff": (lambda a, b: FakeSym()), "sympy": None})
+        c = core.find_class(w.cpp, cls)
+        fn = core.find_func(c, name) if c is not None else None
+        if fn is None:
+            raise core.AnalysisError(f"anchor missing: cpp.{cls}.{name}")
+        return ev.call(minieval.Func(ev, "cpp", fn, self_obj=self), list(args), {})
+
+    def __getattr__(self, name):
+        # any other method of the real generator class is evaluated from the current cpp.py on this stand-in
+        w = self.__dict__.get("_w")
+        if name.startswith("__") or w is None:
+            raise AttributeError(name)
+        cls = "ExtendedKalmanFilter" if self.__dict__["v"].ekf else "Model"
+        c = core.find_class(w.cpp, cls)
+        if c is not None and core.find_func(c, name) is not None:
+            return lambda *a: self._real(cls, name, *a)
+        raise AttributeError(name)
+
+    def _body(self, name):
+        if self._w is None:
+            return self._stub()
+        return self._real("ExtendedKalmanFilter" if self.v.ekf else "Model", name)
+
+    def process_model_body(self):
+        return self._body("process_model_body")
+
+    def process_jacobian_body(self):
+        return self._body("process_jacobian_body")
+
+    def control_jacobian_body(self):
+        return self._body("control_jacobian_body")
+
+    def control_covariance_body(self):
+        return self._body("control_covariance_body")
+
+    def model_body(self):
+        return self._body("model_body")
 
     def enable_control(self):
+        if self._w is not None:
+            return self._real("ExtendedKalmanFilter" if self.v.ekf else "Model", "enable_control")       # the generator's own definition
         return self.control_size > 0
 
     def enable_calibration(self):
+        if self._w is not None:
+            return self._real("ExtendedKalmanFilter" if self.v.ekf else "Model", "enable_calibration")
         return self.calibration_size > 0
 
     def reading_types(self, verbose=False):
@@ -95,7 +190,6 @@ class FakeGenerator:
     def _stub(self):
         return [Node("Return", value="{}")]
 
-    process_model_body = process_jacobian_body = control_jacobian_body = control_covariance_body = model_body = _stub
 
 
 _CACHE: Dict[Any, Any] = {}
@@ -156,7 +250,7 @@ class Witness:
 
     def skeleton(self, v: Valuation) -> Tuple[List[str], FakeGenerator]:
         ev = minieval.MiniEval({"ast_fragments": self.frag, "cpp": self.cpp}, aliases={"fragments": "ast_fragments"})
-        gen = FakeGenerator(v)
+        gen = FakeGenerator(v, self)
         header = ev.call_named("cpp", "_header_body", generator=gen)
         source = ev.call_named("cpp", "_source_body", generator=gen)
         out: List[str] = []
@@ -173,6 +267,14 @@ class Witness:
     def driver(self, v: Valuation, gen: FakeGenerator) -> List[str]:
         cal = ", cal" if v.calibration else ""
         ctl = ", u" if v.control else ""
+        if not v.ekf:
+            d = ["namespace drive {", "using namespace gen;", "void run() {", "  Model m;", "  State s;"]
+            if v.calibration:
+                d.append("  Calibration cal;")
+            if v.control:
+                d.append("  Control u;")
+            d += [f"  State r = m.model(0.1, s{cal}{ctl});", "  State s0(StateOptions{});", "}", "} // namespace drive"]
+            return d
         d = ["#include <formak/runtime/ManagedFilter.h>", "#include <vector>", "namespace drive {", "using namespace gen;",
              "using MF = formak::runtime::ManagedFilter<ExtendedKalmanFilter>;",
              "static_assert(MF::compatible, \"generated filter is not compatible with the managed runtime\");",
